@@ -51,6 +51,16 @@ def main():
         import pyx2py
         pyx_info = pyx2py.tie(V, str(common.REPO), common.rng_for(args.seed, "pyx"))
 
+    # 2c. answers of the TOAST geometry API must not depend on the calls made before
+    hist_calls = None
+    if pid in ("C04", "C05", "C06", "C12"):
+        import history_probe
+        try:
+            hist_calls = history_probe.run(V, str(common.REPO), common.rng_for(args.seed, "history", pid), label=pid)
+        except Exception as e:
+            traceback.print_exc()
+            V.disagreement("history-independence probe", dict(error=repr(e)), "probe completes", "probe raised", None)
+
     # 3. correspondence
     mod = importlib.import_module(f"corr_{pid}")
     ctx = dict(tier=args.tier, seed=args.seed, replay=None)
@@ -75,6 +85,8 @@ def main():
     coverage.update(cov)
     if pyx_info is not None:
         coverage["pyx_tie"] = pyx_info
+    if hist_calls is not None:
+        coverage["history_independence_probe_calls"] = hist_calls
     if args.tier == "thorough":
         chk = common.coqchk(pid)
         coverage["coqchk"] = chk
